@@ -1,5 +1,5 @@
 use easy_error::{err_msg, Error, ResultExt};
-use tokio::io::{AsyncBufRead, AsyncBufReadExt, AsyncWrite, AsyncWriteExt};
+use tokio::io::{AsyncBufRead, AsyncBufReadExt, AsyncReadExt, AsyncWrite, AsyncWriteExt};
 use tracing::trace;
 
 type Reader<'a> = &'a mut (dyn AsyncBufRead + Send + Unpin);
@@ -175,13 +175,24 @@ async fn read_headers(
         let a = buf
             .split_once(": ")
             .ok_or_else(|| err_msg(format!("bad response: {:?}", buf)))?;
+        if headers.len() >= MAX_HEADERS {
+            return Err(err_msg("too many headers"));
+        }
         headers.push((a.0.to_owned(), a.1.to_owned()))
     }
 }
 
+// a peer must not be able to make us buffer without bound
+const MAX_LINE: u64 = 65536;
+const MAX_HEADERS: usize = 256;
+
 async fn read_line(s: Reader<'_>) -> Result<String, Error> {
     let mut buf = String::with_capacity(256);
-    let sz = s.read_line(&mut buf).await.context("readline")?;
+    let sz = s
+        .take(MAX_LINE)
+        .read_line(&mut buf)
+        .await
+        .context("readline")?;
     match sz {
         0 => Err(err_msg("EOF")),
         _ if !buf.ends_with('\n') => Err(err_msg("EOF in the middle of a line")),
